@@ -1,5 +1,5 @@
 From Coq Require Import List NArith ZArith Bool Lia.
-From Vy Require Import Model.Base Model.Lexer Model.Encoding Gen.Codepage Gen.ParserConsts Gen.Elements Gen.Yaml Gen.Known.
+From Vy Require Import Model.Base Model.Lexer Model.Parser Model.Encoding Gen.Codepage Gen.ParserConsts Gen.Elements Gen.Yaml Gen.Known.
 Import ListNotations.
 Open Scope N_scope.
 
